@@ -486,6 +486,7 @@ func (s *Server) Clear() {
 	// we do not drain InitDoneChannel, because Init is only done once during rapid lifetime
 
 	drainChannel(s.InvokeDoneChan)
+	s.setCachedInitErrorResponse(nil)
 	s.Release()
 }
 
